@@ -22,7 +22,9 @@ RULE = ('operand/operator sequences: operands are atoms, calls, lists, maps, '
         'prefix operators x an index suffix on one operand; random: up to 12 '
         'operators, redundant parentheses, random whitespace; custom tables: '
         'generated sequences of insert_operator calls keeping groups '
-        'homogeneous; engines created part-way through such a sequence and '
+        'homogeneous, and a directed family (every kind of operator joined '
+        'to / put next to every kind of stock group, a second operator '
+        'joined to the new group); engines created part-way through such a sequence and '
         'used directly, through copy() and with per-call options while the '
         'factory is customised further (texts using the later operators '
         'are judged against an engine of an untouched factory with the '
@@ -557,6 +559,50 @@ def table_pairs(draw):
     return [a, {'base': a['base'], 'inserts': inserts}]
 
 
+def directed_specs():
+    """every kind of operator joined to (or put next to) every kind of
+    group the stock tables have, plus a second operator joined to the
+    freshly made group: the homogeneous combinations must all build"""
+    out = []
+    kinds = {'bin-l': OT.BINARY_LEFT_ASSOCIATIVE,
+             'bin-r': OT.BINARY_RIGHT_ASSOCIATIVE,
+             'pre': OT.PREFIX_UNARY, 'suf': OT.SUFFIX_UNARY}
+    # anchors: (symbol, is-binary, what may join its group)
+    anchors = [('+', True, ('bin-l', 'pre')), ('->', True, ('bin-r', 'pre')),
+               ('not', False, ('pre', 'bin-l', 'bin-r')),
+               ('and', True, ('bin-l', 'pre')), ('*', True, ('bin-l', 'pre'))]
+    for base in ('default', 'legacy'):
+        for sym, is_bin, joiners in anchors:
+            for kind, typ in kinds.items():
+                for create in (True, False):
+                    if not create and kind not in joiners:
+                        continue
+                    first = [sym, is_bin, '@@', typ, create, None]
+                    out.append({'base': base, 'inserts': [first]})
+                    # a second operator joins the group of the first
+                    for kind2, typ2 in kinds.items():
+                        if kind == 'suf':
+                            ok = kind2 == 'suf'
+                        elif kind == 'pre':
+                            ok = create and kind2 in ('pre', 'bin-l',
+                                                      'bin-r')
+                        else:
+                            ok = create and kind2 in (kind, 'pre')
+                        if ok:
+                            out.append({'base': base, 'inserts': [
+                                first, ['@@', kind.startswith('bin'), '%%',
+                                        typ2, False, None]]})
+    return out
+
+
+def _directed_shard(run, specs):
+    for spec in specs:
+        check_table(run, {'kind': 'table', 'table': spec})
+        run.hyp('directed-programs', st.tuples(programs(spec), programs(spec)),
+                lambda cs: [check_program(run, c) for c in cs], 3,
+                shard=hash(repr(spec)) % 1000)
+
+
 def _custom_shard(run, ntables, nprog, shard):
     run.hyp('table-pairs', table_pairs().flatmap(
         lambda specs: st.tuples(*[programs(sp) for sp in specs + specs[:1]])),
@@ -597,3 +643,7 @@ def run(run):
                                for i in range(k)])
     run.shards(_custom_shard, [((1000 if full else 64) // k, 30, i)
                                for i in range(k)])
+    ds = directed_specs()
+    if not full:
+        ds = ds[run.seed % 2::2]
+    run.shards(_directed_shard, [(ds[i::16],) for i in range(16)])
